@@ -123,7 +123,8 @@ class WriteBack(Harness):
     bounds = {"quick": "BED3, BED6, two-line FASTA, FASTQ (plain '+' line), GTF, SAM (with tags), VCF with FORMAT/sample columns: 3 records of "
                        "unequal length with symbolic bytes incl. non-canonical spellings (leading zeros, '+5'); 13 selection programs of 1-2 "
                        "steps (slices, reversal, symbolic boolean mask, symbolic integer list, fixed list with repeats, concatenations); for "
-                       "BED3/BED6 additionally replacement of one integer column by symbolic values",
+                       "BED3/BED6 additionally replacement of one integer column by symbolic values (replace() or attribute assignment), with other "
+                       "columns parsed before / after the replacement; CRLF FASTQ / FASTA selections",
               "thorough": "4 records, all programs for all formats, replacement after every program"}
 
     FILES = {
@@ -136,14 +137,16 @@ class WriteBack(Harness):
         "fastq": dict(fmt="fastq", records=[[1, 2], [2, 1], [1, 3]]),
         "bed3_crlf": dict(fmt="bed3", rows=[[1, 2, 1], [2, 1, 3], [1, 1, 1]], crlf=True),
         "fastq_plusname": dict(fmt="fastq", records=[[1, 2], [2, 1], [1, 3]], plus_name=True),
+        "fastq_crlf": dict(fmt="fastq", records=[[1, 2], [2, 1], [1, 3]], crlf=True),
+        "fasta2_crlf": dict(fmt="fasta2", records=[[1, 2], [2, 1], [1, 3]], crlf=True),
     }
 
     def skeletons(self, tier, seed):
         out = []
         for name, f in self.FILES.items():
             progs = list(PROGRAMS) if (tier == "thorough" or name in ("bed3", "fastq")) else ["all", "tail", "mask", "fixed", "cat", "step_list"]
-            if name in ("bed3_crlf", "fastq_plusname") and tier == "quick":
-                progs = ["all", "tail", "fixed", "cat"]
+            if name in ("bed3_crlf", "fastq_plusname", "fastq_crlf", "fasta2_crlf") and tier == "quick":
+                progs = ["all", "tail", "fixed", "cat"] if name != "fasta2_crlf" else ["tail", "mask"]
             for p in progs:
                 out.append(dict(f, file=name, prog=p, replace=None))
             if name == "sam":
@@ -151,6 +154,17 @@ class WriteBack(Harness):
             if name in ("bed3", "bed6"):
                 for p in (["all", "tail", "mask", "fixed", "cat_fixed_step"] if tier == "quick" else list(PROGRAMS)):
                     out.append(dict(f, file=name, prog=p, replace="stop" if name == "bed3" else "start"))
+            if name in ("bed3", "bed6"):
+                # fields parsed (cached) before / after the replacement, replacement by replace() or by attribute assignment:
+                # the columns that were not replaced keep their source text
+                col = "stop" if name == "bed3" else "start"
+                other = "start" if name == "bed3" else "stop"
+                for p in (["all", "mask"] if tier == "quick" else ["all", "tail", "mask", "fixed", "cat"]):
+                    for assign in (False, True):
+                        out.append(dict(f, file=name, prog=p, replace=col, touch=[other], assign=assign))
+                        out.append(dict(f, file=name, prog=p, replace=col, touch_after=[other, col], assign=assign))
+                    out.append(dict(f, file=name, prog=p, replace=col, touch_parent=[other], touch=[col], assign=True))
+                    out.append(dict(f, file=name, prog=p, replace=None, touch=[other, col]))
             # histories: a first selection is written, then the SAME parent table is used again
             pairs = [("tail", "all"), ("step", "tail"), ("rev", "fixed"), ("mask", "rev")]
             if tier == "thorough":
@@ -188,10 +202,20 @@ class WriteBack(Harness):
         table = NpDataclassReader(NumpyFileReader(ctx.file(content), B), lazy=True).read()
         log = []
         counter = [0]
+        for fld in skel.get("touch_parent", []):
+            getattr(table, fld)
         sel = run_program(PROGRAMS[skel["prog"]], table, x, ctx, n, log, counter)
         m = len(sel)
+        for fld in skel.get("touch", []):
+            getattr(sel, fld)                      # parses and caches the field on the lazy object
         if skel["replace"]:
-            sel = replace(sel, **{skel["replace"]: ctx.arr([x[f"new{j}"] for j in range(m)], "int64")})
+            values = ctx.arr([x[f"new{j}"] for j in range(m)], "int64")
+            if skel.get("assign"):
+                setattr(sel, skel["replace"], values)
+            else:
+                sel = replace(sel, **{skel["replace"]: values})
+        for fld in skel.get("touch_after", []):
+            getattr(sel, fld)
         f = ctx.wfile()
         NpBufferedWriter(f, B).write(sel)
         res = dict(bytes=ctx.file_bytes(f), log=log, m=m)
